@@ -195,7 +195,7 @@ def table_tie(c, vh, drv):
     docs = []
     for cols, rows in shapes:
         docs.append("|a" * cols + "|\n" + "|-" * cols + "|\n" + "".join("|b" * r + "|\n" for r in rows))
-    impl = vlib.run_lines(vh, ["tablerows table=1 %s" % hx(d) for d in docs])
+    impl = vlib.run_lines(vh, ["tablerows6 table=1 %s" % hx(d) for d in docs])
     mod = vlib.run_lines(drv, ["tbl_rows %d %s" % (cols, " ".join(str(r) for r in rows)) for cols, rows in shapes])
     agree = 0
     for (cols, rows), d, a, m in zip(shapes, docs, impl, mod):
